@@ -28,8 +28,8 @@ def check(P, rep):
                   e.describe(), w)
         again = e.node in succ_reachable(g, [e.node])
         rep.check(not again, 'C13.R1', 'call_contract:publish-once', 'publish cannot repeat on a path', esite(g, e))
-    ok, _ = g.must_guard([n for n in g.nodes_of(g.ok_exit_sids())], [e.node for e in pubs])
-    rep.check(ok and bool(g.ok_exit_sids()), 'C13.R1', 'call_contract:publish-on-success',
+    ok = g.success_needs([e.node for e in pubs])
+    rep.check(ok, 'C13.R1', 'call_contract:publish-on-success',
               'every success exit is preceded by the publish', entry_id(g))
     # R2
     for e in pubs:
